@@ -322,6 +322,11 @@ def layout_fn(P, u, rep, fname, union):
                             got[k] = s.out[k](e)
                     if 'offset' in got and 'bit_offset' in got:
                         got['pos'] = 8 * got['offset'] + got['bit_offset']
+                    if not union and cls[1] and not cls[3] and 'bit_offset' in got and 'unit-fit' not in bad:
+                        # what the code generator relies on (one load/store of the declared type at `offset`): the field lies inside that unit
+                        if not (0 <= got['bit_offset'] and got['bit_offset'] + e['W'] <= 8 * e['S']):
+                            bad['unit-fit'] = (e, 'the bit-field occupies bits %d..%d of the %d-byte unit at its offset: bits outside the unit are never loaded or stored'
+                                               % (got['bit_offset'], got['bit_offset'] + e['W'] - 1, e['S']), s, ())
                     for k, w in want.items():
                         if k not in got:
                             raise Uninterpretable('summary has no value for %s' % k)
@@ -331,6 +336,8 @@ def layout_fn(P, u, rep, fname, union):
                             if cur is None or rank < cur[3]:
                                 bad[GROUP[k]] = (e, '%s is %d, %s: %d' % (WHAT[k], got[k], 'gcc' if packed else 'psABI', w), s, rank)
                 groups = ('placement', 'type-align') if not union else ('union-size', 'type-align')
+                if not union and cls[1] and not cls[3]:
+                    groups += ('unit-fit',)
                 for g in groups:
                     if g in bad:
                         e, msg, s, _rank = bad[g]
